@@ -524,6 +524,135 @@ def g11_needles_pair(rng):
     return a, b
 
 
+def _rect(x0, y0, x1, y1, ccw=True):
+    r = [(x0, y0), (x1, y0), (x1, y1), (x0, y1), (x0, y0)]
+    return r if ccw else list(reversed(r))
+
+
+def g12_operand(rng, n=8):
+    """one or two disjoint rectangles on a small integer grid, each possibly with a rectangular hole (many
+    overlapping / shared edges between the operands, holes directly above shared edges)"""
+    polys = []
+    boxes = []
+    for _ in range(rng.choice([1, 1, 2])):
+        for _try in range(20):
+            x0, x1 = sorted(rng.sample(range(0, n + 1), 2))
+            y0, y1 = sorted(rng.sample(range(0, n + 1), 2))
+            # parts of one operand must not overlap or share boundary segments (touching at a corner is fine)
+            ok = all(x1 < bx0 or bx1 < x0 or y1 < by0 or by1 < y0 or
+                     ((x1 == bx0 or bx1 == x0) and (y1 == by0 or by1 == y0)) for (bx0, by0, bx1, by1) in boxes)
+            if ok:
+                break
+        else:
+            continue
+        boxes.append((x0, y0, x1, y1))
+        poly = [_rect(x0, y0, x1, y1, rng.random() < 0.8)]
+        if x1 - x0 >= 3 and y1 - y0 >= 3 and rng.random() < 0.6:
+            hx0 = rng.randint(x0 + 1, x1 - 2); hx1 = rng.randint(hx0 + 1, x1 - 1)
+            hy0 = rng.randint(y0 + 1, y1 - 2); hy1 = rng.randint(hy0 + 1, y1 - 1)
+            poly.append(_rect(hx0, hy0, hx1, hy1, rng.random() < 0.5))
+        polys.append(poly)
+    return polys
+
+
+def g12_pair(rng):
+    return g12_operand(rng), g12_operand(rng)
+
+
+def g13_pair(rng, n=12):
+    """two rectangles whose sides are aligned with high probability (partially overlapping collinear edges
+    that start inside one another), with rectangular holes of either operand placed just inside the aligned
+    sides; then a random symmetry of the square lattice and a random operand order"""
+    ax0, ay0 = rng.randint(0, 3), rng.randint(0, 3)
+    ax1, ay1 = rng.randint(ax0 + 5, n), rng.randint(ay0 + 5, n)
+
+    def side(lo, hi, which):
+        r = rng.random()
+        if r < 0.45:
+            return lo if which == 0 else hi
+        return rng.randint(lo + 1, hi - 1) if r < 0.85 else (lo - rng.randint(1, 2) if which == 0 else hi + rng.randint(1, 2))
+    for _try in range(50):
+        bx0, bx1 = side(ax0, ax1, 0), side(ax0, ax1, 1)
+        by0, by1 = side(ay0, ay1, 0), side(ay0, ay1, 1)
+        if bx1 - bx0 >= 3 and by1 - by0 >= 3:
+            break
+    else:
+        bx0, by0, bx1, by1 = ax0 + 1, ay0, ax1 - 1, ay1 - 1
+    a = [_rect(ax0, ay0, ax1, ay1, True)]
+    b = [_rect(bx0, by0, bx1, by1, True)]
+    # holes inside the intersection of the two boxes, hugging one of its sides at distance 1
+    ix0, iy0, ix1, iy1 = max(ax0, bx0), max(ay0, by0), min(ax1, bx1), min(ay1, by1)
+    placed = []
+    if ix1 - ix0 >= 3 and iy1 - iy0 >= 3:
+        for _ in range(rng.choice([1, 1, 2])):
+            hx0 = rng.randint(ix0 + 1, ix1 - 2); hx1 = rng.randint(hx0 + 1, ix1 - 1)
+            hy0 = rng.randint(iy0 + 1, iy1 - 2); hy1 = rng.randint(hy0 + 1, iy1 - 1)
+            if all(hx1 < px0 or px1 < hx0 or hy1 < py0 or py1 < hy0 for (px0, py0, px1, py1, _) in placed):
+                who = rng.random() < 0.5
+                placed.append((hx0, hy0, hx1, hy1, who))
+    ha = [h for h in placed if h[4]]
+    hb = [h for h in placed if not h[4]]
+    # holes of one operand must not touch each other
+    def sep(hs):
+        return all(h1[2] < h2[0] or h2[2] < h1[0] or h1[3] < h2[1] or h2[3] < h1[1]
+                   for i, h1 in enumerate(hs) for h2 in hs[i + 1:])
+    if sep(ha) and sep(hb):
+        for h in ha:
+            a.append(_rect(h[0], h[1], h[2], h[3], False))
+        for h in hb:
+            b.append(_rect(h[0], h[1], h[2], h[3], False))
+    sw, nx, ny = rng.random() < 0.5, rng.random() < 0.5, rng.random() < 0.5
+
+    def tf(ring):
+        out = []
+        for (x, y) in ring:
+            if sw:
+                x, y = y, x
+            out.append((-x if nx else x, -y if ny else y))
+        return out
+    A = [[tf(r) for r in a]]
+    B = [[tf(r) for r in b]]
+    return (A, B) if rng.random() < 0.5 else (B, A)
+
+
+def g14_sliver_pair(rng):
+    """an integer sliver triangle whose x-extremal vertex has two incident edges that are collinear up to one
+    part in 2^54 (a plain floating-point cross product cannot tell them apart, the exact orientation can),
+    listed together with a box in one multipolygon; the other operand is a box that covers the sliver or
+    misses it, so that no segment crossing is ever computed and all arithmetic of the sweep stays exact"""
+    m = 1 << rng.choice([27, 27, 28, 29])
+    for _try in range(100):
+        u = (m + rng.randint(0, 3), m + rng.randint(0, 3))
+        v = (m + rng.randint(0, 3), m + rng.randint(0, 3))
+        cr = u[0] * v[1] - u[1] * v[0]
+        if cr != 0 and abs(cr) <= 4:
+            break
+    else:
+        u, v = (m + 1, m + 2), (m, m + 1)
+    o = (rng.randint(-3, 3), rng.randint(-3, 3))
+    sg = rng.choice([1, -1])
+    tri = [o, (o[0] + sg * u[0], o[1] + sg * u[1]), (o[0] + sg * v[0], o[1] + sg * v[1]), o]
+    far = 4 * m
+    xs = [q[0] for q in tri]
+    lo, hi = min(xs), max(xs)
+    left = rng.random() < 0.5
+    w = rng.randint(2, 5)
+    bx = lo - rng.randint(8, 40) - w if left else hi + rng.randint(8, 40)
+    box = _rect(bx, o[1] - rng.randint(1, 6), bx + w, o[1] + rng.randint(1, 6), rng.random() < 0.7)
+    a = [[tri if rng.random() < 0.5 else list(reversed(tri))], [box]]
+    if rng.random() < 0.5:
+        a.reverse()
+    r = rng.random()
+    if r < 0.5:
+        b = [[_rect(-far, -far, far, far, True)]]
+    elif r < 0.8:
+        # covers the sliver and half of the small box (axis-parallel integer crossings: exact)
+        b = [[_rect(bx + 1, -far, far, far, True)]] if left else [[_rect(-far, -far, bx + 1, far, True)]]
+    else:
+        b = [[_rect(far + 10, -5, far + 20, 5, True)]]
+    return (a, b) if rng.random() < 0.7 else (b, a)
+
+
 FAMILIES = {
     "g1": g1_pair,
     "g2": g2_pair,
@@ -534,6 +663,12 @@ FAMILIES = {
     "g9": g9_evenodd_pair,
     "g10": g10_pair,
     "g11": g11_needles_pair,
+    "g12": g12_pair,
+    "g13": g13_pair,
+    "g14": g14_sliver_pair,
 }
 # families on which all arithmetic is exact by construction / usually exact / never exact
-EXACT_FAMILIES = {"g1", "g10"}
+EXACT_FAMILIES = {"g1", "g10", "g12", "g13", "g14"}
+# families whose operands stay exact when operands of different pairs (and results of operations) are mixed:
+# all edges axis-parallel
+CLOSED_EXACT_FAMILIES = {"g1", "g12", "g13"}
